@@ -72,6 +72,11 @@ class World:
         os.makedirs(self.scratch)
         self.scratch = os.path.realpath(self.scratch)
         self.uni = Universe(scn["ws"])
+        import zlib
+        from ..core.scenario import cjson
+        self.mtime_policy = scn.get("mtime") or ["advance", "same", "back"][zlib.crc32(cjson(scn["ws"]).encode("ascii")) % 3]
+        self.mtime_faults = 0
+        self._mtimes: dict[str, int] = {}
         self.lmaps: dict[str, dict] = {}
         self.texts: dict[str, str] = {}
         self.prints: list[tuple[str, int, str]] = []
@@ -85,10 +90,19 @@ class World:
         return os.path.join(self.scratch, rel)
 
     def write(self, rel: str, text: str) -> None:
+        """Writes a file. When an existing file is REwritten, its modification time follows the scenario's mtime policy:
+        "advance" (the kernel's new timestamp), "same" (the old timestamp is restored: coarse file-system timestamps, cp -p,
+        rsync -t) or "back" (an older timestamp: a restored backup, a clock that jumped backwards)."""
         p = self.abs(rel)
         os.makedirs(os.path.dirname(p), exist_ok=True)
+        old = self._mtimes.get(rel)  # also remembered across a remove + re-create of the same path
         with open(p, "w", encoding="utf-8", newline="") as f:
             f.write(text)
+        if old is not None and self.mtime_policy != "advance":
+            delta = 0 if self.mtime_policy == "same" else -10_000_000_000
+            os.utime(p, ns=(old + delta, old + delta))
+            self.mtime_faults += 1
+        self._mtimes[rel] = os.stat(p).st_mtime_ns
 
     def build(self) -> None:
         fmts = self.scn.get("fmt", {})
